@@ -60,7 +60,7 @@ def strategy_(draw, tier):
     rnd = random.Random(draw(st.integers(0, 2**30)))
     b = gen_graph._Builder(draw, rnd, ["s", "utg"], draw(st.sampled_from([0, 7, 96])), 6)
     nchrom = draw(st.integers(2, 4))
-    names = draw(st.permutations(["chr1", "chr2", "chrX", "chr10_alt", "chrM", "chr2.mat", "chr2.pat"]))[:nchrom]
+    names = draw(st.permutations(["chr1", "chr2", "chrX", "chr10_alt", "chrM", "chr2.mat", "chr2.pat", "complete"]))[:nchrom]
     plans = []
     for i, name in enumerate(names):
         plan = draw(st.sampled_from(["good", "tip_scaffold", "tip_bubble", "3artic", "join"]))
